@@ -61,6 +61,7 @@ type Exec struct {
 	packed    []int
 	seq       int
 	replays   int
+	broken    bool
 }
 
 func (e *Exec) violate(key, what string) {
@@ -150,6 +151,7 @@ func (e *Exec) newWorld(kv map[string]string) error {
 	w.NextIdx = 1
 	e.admitted, e.rejected = nil, nil
 	e.base, e.snapPool, e.sampled, e.packed = nil, nil, nil, nil
+	e.broken = false
 	return nil
 }
 
@@ -497,6 +499,9 @@ func (e *Exec) exec1(op string, pos []string, kv map[string]string, line string)
 	w := e.w
 	if op != "reset" && op != "rawsort" && w == nil {
 		return "no-world"
+	}
+	if e.broken && op != "reset" && op != "rawsort" {
+		return "-" // producer and replica diverged after a reported failure: the rest of the case is not evaluated
 	}
 	switch op {
 	case "reset":
@@ -858,6 +863,7 @@ func (e *Exec) opPack() string {
 	blk, err := m.VerifPackBlock(w.P.Ctx, height, time.Now(), nil)
 	if err != nil {
 		e.violate("pack-failed", "packBlock fails on a pool of admitted transactions: "+err.Error())
+		e.broken = true
 		return "-"
 	}
 	ids := e.blockIDs(blk, "m0")
@@ -886,10 +892,12 @@ func (e *Exec) opPack() string {
 	// producer: confirmBlockForMiner (ledger, then PlayForMiner)
 	if st := w.P.L.ConfirmBlock(chainlib.CloneBlock(blk), false); !st.Succ {
 		e.violate("producer-confirm-failed", fmt.Sprintf("the producer's ledger refuses its own block: %v", st.Error))
+		e.broken = true
 		return "-"
 	}
 	if err := w.P.S.PlayForMiner(blk.Blockid); err != nil {
 		e.violate("producer-play-failed", "PlayForMiner fails on the producer's own block: "+err.Error())
+		e.broken = true
 		return "-"
 	}
 	// replica
@@ -899,7 +907,7 @@ func (e *Exec) opPack() string {
 			key = "block-" + stage + "-failed"
 		}
 		e.violate(key, fmt.Sprintf("the block the producer packed (txs %v) is refused by a node that never saw its transactions (%s: %v)", body, stage, err))
-		// keep the two nodes aligned for the rest of the case: not possible; end of case
+		e.broken = true // the two nodes cannot be kept aligned: end of case
 		return "-"
 	}
 	e.reconcile()
